@@ -140,7 +140,7 @@ def worker_main(inp, outp):
 # ----------------------------------------------------------------------------
 def run_processes(cases, seeds, tag, chunk=None):
     """Returns per case the list of serialisations, one per seed (same order)."""
-    work = os.path.join(common.WORK, tag)
+    work = os.path.join(common.WORK, "%s-%d" % (tag, os.getpid()))    # concurrent checks do not collide
     shutil.rmtree(work, ignore_errors=True)
     os.makedirs(work)
     n = len(cases)
